@@ -97,6 +97,11 @@ def _drive(case, doc):
     resolve = case["kind"] in ("rule*+corr", "rule+corr*", "rule+filter*")
     o["coll_strict"] = _load(lambda: SigmaCollection.from_dicts(copy.deepcopy(docs), resolve_references=resolve), lambda x: [])
     o["coll_collect"] = _load(lambda: SigmaCollection.from_dicts(copy.deepcopy(docs), collect_errors=True, resolve_references=resolve), coll_errors)
+    # the same two loads of the SAME objects, as a caller does who keeps the parsed YAML: what the first load does to
+    # its input is part of what the second one sees
+    same = copy.deepcopy(docs)
+    o["same_strict"] = _load(lambda: SigmaCollection.from_dicts(same, resolve_references=resolve), lambda x: [])
+    o["same_collect"] = _load(lambda: SigmaCollection.from_dicts(same, collect_errors=True, resolve_references=resolve), coll_errors)
     if case["kind"] in ("rule", "corr", "filter"):
         cls = {"rule": SigmaRule, "corr": SigmaCorrelationRule, "filter": SigmaFilter}[case["kind"]]
         o["direct_strict"] = _load(lambda: cls.from_dict(copy.deepcopy(doc)), lambda x: [])
